@@ -222,6 +222,24 @@ def check_c16(tier, seed):
                 'file of %d bytes with header %s' % (len(fb) // 2, fb[:32]) if fb not in ('MISSING', 'DIR') else fb.lower() + ' path', got, exp), {'cmd': 'open ' + fb[:200], 'native': out})
             return 'open-outcome'
         return None
+    def confirm_unmap(m):
+        """the real reader is opened and dropped in a child process; every address range mapped before must still be mapped"""
+        stats[0] += 1
+        fb = file_bytes(m)
+        if fb in ('MISSING', 'DIR'):
+            return None
+        out = rp.ask('unmapcheck ' + fb)
+        f = dict(x.split('=', 1) for x in out.split() if '=' in x)
+        if out.startswith('ok') and int(f.get('lost_bytes', '0')) > 0:
+            stats[1] += 1
+            ck.violation('unmaps-foreign-memory', 'opening and dropping a reader on a file whose header declares %d bytes unmapped %s bytes of address space that did not belong to the reader (%s): the process can crash at any later access'
+                         % (mval(m, om.seg), f.get('lost_bytes'), f.get('first_lost', '')), {'cmd': 'unmapcheck ' + fb[:200], 'native': out})
+            return 'unmap'
+        if out.startswith('ok crashed'):
+            stats[1] += 1
+            ck.violation('unmaps-foreign-memory', 'opening and dropping a reader on a file whose header declares %d bytes crashed the process: %s' % (mval(m, om.seg), out), {'cmd': 'unmapcheck ' + fb[:200], 'native': out})
+            return 'unmap'
+        return None
     n = 0
     for o in outs:
         if o.kind != 'return':
@@ -261,6 +279,24 @@ def check_c16(tier, seed):
         if not is_ok:
             maps = kinds.count('mmap'); unmaps = kinds.count('munmap')
             pr.prove(label + ': a mapping made on a failing path is unmapped', z3.And(pc, om.mmap_ok), z3.BoolVal(maps == unmaps) if maps else z3.BoolVal(True), need_reach=False)
+        # what is unmapped is exactly what was mapped (a longer munmap silently removes whatever follows the mapping)
+        trace = list(o.state.trace)
+        if is_ok:
+            # the successful reader releases its mapping when it is dropped: run its drop glue
+            try:
+                st2 = o.state.fork()
+                st2.mem[(0, 'reader_out')] = v.p['Ok'].f[0]
+                ex.inline_drops = True
+                ex._drop_value(st2, Ref(0, 'reader_out'), 'ShmReader', om.fn if hasattr(om, 'fn') else None, 0)
+                trace = list(st2.trace)
+            except EngineError as e:
+                ck.inconclusive.append('drop of the reader not executable: %s' % e)
+        mm = [e for e in trace if e.kind == 'mmap']; um = [e for e in trace if e.kind == 'munmap']
+        if is_ok:
+            pr.prove(label + ': dropping the reader unmaps its mapping', z3.And(pc, om.mmap_ok), z3.BoolVal(len(um) == 1 and len(mm) == 1), need_reach=False)
+        if mm and um and isinstance(mm[0].args[0], z3.ExprRef) and isinstance(um[0].args[1], z3.ExprRef):
+            pr.prove_cegar(label + ': the length unmapped is the length that was mapped', z3.And(pc, om.mmap_ok), um[0].args[1] == mm[0].args[0], confirm_unmap, lambda m: [],
+                           hints=[[om.seg >= 8192, om.seg <= 2 ** 20], [om.seg <= 4096]])
     # no panic / overflow on any file
     k = 0
     for ob in ex.obligations:
